@@ -81,4 +81,12 @@ def handleInterp : Handler := fun inp out => do
          note := if prop then "" else s!"runtimes diverge ({aspect}) on a program using {primary} (class {cause})",
          sig := if prop then "" else s!"C26:{cause}:{aspect}" }
 
+/-- "interp36" (C36): programs whose amounts and balances sit around 2^63 / 2^64, without
+    the constructs that have a known interpreter divergence; the interpreter (big.Int
+    throughout) is the oracle for the machine's in-VM aggregation of amounts. -/
+def handleInterp36 : Handler := fun inp out => do
+  let v ← handleInterp inp out
+  pure { v with sig := if v.prop then "" else "C36:vm-aggregation:" ++ v.sig,
+                note := if v.prop then "" else "in-VM aggregation of amounts around 2^63 differs from the interpreter: " ++ v.note }
+
 end Ledger.Driver.Api
